@@ -345,6 +345,87 @@ theorem rescale_statement_fails : ¬ rescale_statement := by
   revert this
   decide
 
+/-! ## `is_same_kernel`: a declaration matches exactly its own kernel kind and type list -/
+
+/-- a `SupportedKernel` accepts a kernel op iff the kind and every element type — operands AND result —
+are the declared ones (all declarations, all kinds, all type lists of any length) -/
+theorem same_kernel_exact (sk : Supported) (k : Kernel) (tys : List Nat) :
+    isSameKernel sk k tys = true ↔ sk.kind = k ∧ sk.types = tys := by
+  simp [isSameKernel]
+
+/-- in particular a result type that differs from the declared one is rejected -/
+theorem same_kernel_result_checked (sk : Supported) (k : Kernel) (ops : List Nat) (r r' : Nat)
+    (hdecl : sk.types = ops ++ [r]) (hne : r' ≠ r) : isSameKernel sk k (ops ++ [r']) = false := by
+  simp [isSameKernel, hdecl, hne.symm]
+
+example : isSameKernel ⟨.rescale, [32, 8]⟩ .rescale [32, 8] = true := by decide
+example : isSameKernel ⟨.rescale, [32, 8]⟩ .rescale [32, 32] = false := by decide
+
+/-! ## `convert-tosa-to-kernel`: the clamp range of the kernel that replaces rescale (+ clamp) -/
+
+/-- without a `tosa.clamp` the kernel saturates to exactly the signed range of the (i8 or i32) result type -/
+theorem tosa_default_saturates (t : TosaRescale) (p : RescaleParams) (w : Nat)
+    (h : tosaToKernel t = some (p, w)) (hc : t.clamp = none) :
+    (w = 8 ∨ w = 32) ∧ w = t.outWidth ∧ p.minInt = -(2 ^ (w - 1) : Nat) ∧ p.maxInt = (2 ^ (w - 1) : Nat) - 1 := by
+  unfold tosaToKernel at h
+  rw [hc] at h
+  split at h
+  · cases h
+  · simp only at h
+    split at h
+    · cases h
+    · next hw =>
+      simp only [Option.some.injEq, Prod.mk.injEq] at h
+      obtain ⟨rfl, rfl⟩ := h
+      have hw' : t.outWidth = 8 ∨ t.outWidth = 32 := by omega
+      rcases hw' with h8 | h32
+      · simp [h8]
+      · simp [h32]
+
+/-- with a `tosa.clamp` as the single user its bounds are the kernel's bounds -/
+theorem tosa_clamp_kept (t : TosaRescale) (p : RescaleParams) (w : Nat) (lo hi : Int)
+    (h : tosaToKernel t = some (p, w)) (hc : t.clamp = some (lo, hi)) :
+    w = t.outWidth ∧ p.minInt = lo ∧ p.maxInt = hi := by
+  unfold tosaToKernel at h
+  rw [hc] at h
+  split at h
+  · cases h
+  · simp only [Option.some.injEq, Prod.mk.injEq] at h
+    obtain ⟨rfl, rfl⟩ := h
+    simp
+
+/-- zero points, multipliers, shifts and the rounding mode are carried over unchanged -/
+theorem tosa_params_kept (t : TosaRescale) (p : RescaleParams) (w : Nat) (h : tosaToKernel t = some (p, w)) :
+    p.inputZp = t.inputZp ∧ p.outputZp = t.outputZp ∧ p.multiplier = t.multiplier ∧ p.shift = t.shift ∧
+      p.doubleRound = t.doubleRound := by
+  unfold tosaToKernel at h
+  split at h
+  · cases h
+  · split at h
+    · simp only [Option.some.injEq, Prod.mk.injEq] at h
+      obtain ⟨rfl, _⟩ := h
+      simp
+    · simp only at h
+      split at h
+      · cases h
+      · simp only [Option.some.injEq, Prod.mk.injEq] at h
+        obtain ⟨rfl, _⟩ := h
+        simp
+
+example : tosaToKernel ⟨8, 1, none, 0, -3, [1085889731], [37], false⟩ =
+    some (⟨0, -3, [1085889731], [37], 127, -128, false⟩, 8) := by decide
+example : tosaToKernel ⟨32, 1, none, 0, -3, [1085889731], [37], false⟩ =
+    some (⟨0, -3, [1085889731], [37], 2147483647, -2147483648, false⟩, 32) := by decide
+example : tosaToKernel ⟨16, 1, some (-100, 90), 0, 0, [1], [1], true⟩ =
+    some (⟨0, 0, [1], [1], 90, -100, true⟩, 16) := by decide
+
+/-- DC18c: `LowerRescale` always ends with a truncation to i8, also for a `kernel.rescale (i32) -> i32`:
+the yielded value has width 8 (1000 becomes -24) -/
+theorem rescale_result_type_fails :
+    ∃ (p : RescaleParams) (b : Body), rescaleBody p [32, 32] = some b ∧
+      evalBody b [⟨32, 1000#32⟩, ⟨32, 0#32⟩] = some [⟨8, BitVec.ofInt 8 (-24)⟩] :=
+  ⟨⟨0, 0, [1], [0], 2147483647, -2147483648, false⟩, _, rfl, by decide⟩
+
 /-! ## non-vacuity: concrete inputs meeting the hypotheses -/
 
 /-- i8 x i8 -> i32 mac written with both commutative ops swapped (`muli b a`, `addi prod out`) -/
